@@ -419,23 +419,31 @@ def historyRecord (d : Doc) (cfg : List Nat) (exitSorted : List Nat) : Table :=
       else
         tput tbl hid ((cfg.filter (fun s0 => parentOf d s0 == sid)).foldl oadd [])) tbl) []
 
+/-- `cancelInvoke`: forget the child session and tell the platform to cancel it -/
+def cancelOne (s : Sess σ) (c : Child) : Sess σ :=
+  { s with children := s.children.filter (· != c), trace := s.trace ++ [.cancelInvoke c.invokeId] }
+
 def cancelChildren (d : Doc) (s : Sess σ) (sid : Nat) : Sess σ :=
   let docs := (getState d sid).invokes.map (·.docId)
-  let hit := s.children.filter (fun c => docs.contains c.invDoc)
-  hit.foldl (fun s c =>
-    { s with children := s.children.filter (· != c), trace := s.trace ++ [.cancelInvoke c.invokeId] }) s
+  (s.children.filter (fun c => docs.contains c.invDoc)).foldl cancelOne s
+
+/-- what happens for one state of the sorted exit list: trace, cancel its invocations, run its
+    onexit blocks, remove it from the configuration -/
+def exitOne (env : Env σ) (d : Doc) (s : Sess σ) (sid : Nat) : Sess σ :=
+  let s := s.emit [.exit sid]
+  let s := cancelChildren d s sid
+  let s := (getState d sid).onexit.foldl (runContent env) s
+  { s with cfg := odel s.cfg sid }
+
+/-- first part of `exitStates`: the exit set leaves `statesToInvoke`, history values are recorded -/
+def exitPrepare (d : Doc) (s : Sess σ) (ts : List Nat) : Sess σ :=
+  let toExit := computeExitSet d s.hv s.cfg ts
+  let rec_ := historyRecord d s.cfg (sortByDesc (docIdOf d) toExit)
+  { s with toInvoke := toExit.foldl odel s.toInvoke,
+           hv := rec_.foldr (fun kv tbl => tput tbl kv.1 kv.2) s.hv }
 
 def exitStates (env : Env σ) (d : Doc) (s : Sess σ) (ts : List Nat) : Sess σ :=
-  let toExit := computeExitSet d s.hv s.cfg ts
-  let s := { s with toInvoke := toExit.foldl odel s.toInvoke }
-  let sorted := sortByDesc (docIdOf d) toExit
-  let rec_ := historyRecord d s.cfg sorted
-  let s := { s with hv := rec_.foldr (fun kv tbl => tput tbl kv.1 kv.2) s.hv }
-  sorted.foldl (fun s sid =>
-    let s := s.emit [.exit sid]
-    let s := cancelChildren d s sid
-    let s := (getState d sid).onexit.foldl (runContent env) s
-    { s with cfg := odel s.cfg sid }) s
+  (sortByDesc (docIdOf d) (computeExitSet d s.hv s.cfg ts)).foldl (exitOne env d) (exitPrepare d s ts)
 
 def executeTransitionContent (env : Env σ) (d : Doc) (s : Sess σ) (ts : List Nat) : Sess σ :=
   ts.foldl (fun s tid =>
@@ -455,21 +463,30 @@ def isInFinalState (d : Doc) (cfg : List Nat) (s : Nat) : Bool := isInFinalState
 
 def doneStatePrefix : Str := [100,111,110,101,46,115,116,97,116,101,46]
 
-/-- what happens for one state of the sorted entry list -/
-def enterOne (env : Env σ) (d : Doc) (acc : EntryAcc) (s : Sess σ) (sid : Nat) : Sess σ :=
+/-- the state joins the configuration and the set of states to invoke -/
+def enterAdd (s : Sess σ) (sid : Nat) : Sess σ :=
   let s := s.emit [.enter sid]
-  let s := { s with cfg := oadd s.cfg sid, toInvoke := oadd s.toInvoke sid }
-  let s :=
-    if d.late && !s.entered.contains sid then
-      { s with entered := sid :: s.entered }.absorb (env.initData s.dm sid true)
-    else s
+  { s with cfg := oadd s.cfg sid, toInvoke := oadd s.toInvoke sid }
+
+/-- late binding: the state's data are initialised at its first entry -/
+def enterInit (env : Env σ) (d : Doc) (s : Sess σ) (sid : Nat) : Sess σ :=
+  if d.late && !s.entered.contains sid then
+    { s with entered := sid :: s.entered }.absorb (env.initData s.dm sid true)
+  else s
+
+/-- content blocks run on entry, in this order: onentry blocks, the initial transition's content
+    when the state's default initial state is being entered, the default content of a history
+    child that was the target and had no recorded value -/
+def entryContent (d : Doc) (acc : EntryAcc) (sid : Nat) : List Nat :=
   let st := getState d sid
-  let exe := st.onentry
+  (st.onentry
     ++ (if acc.defaultEntry.contains sid && st.initial > 0 then [(getTrans d st.initial).content] else [])
-    ++ (match hcGet acc.histContent sid with | some c => [c] | none => [])
-  let s := (exe.filter (· > 0)).foldl (runContent env) s
+    ++ (match hcGet acc.histContent sid with | some c => [c] | none => [])).filter (· > 0)
+
+/-- final-state handling after the entry content -/
+def enterFinal (env : Env σ) (d : Doc) (s : Sess σ) (sid : Nat) : Sess σ :=
   if isFinalStateId d sid then
-    let parent := st.parent
+    let parent := (getState d sid).parent
     if parent == d.root then { s with running := false }
     else
       let (o, payload) := env.doneData s.dm s.cfg sid
@@ -482,6 +499,10 @@ def enterOne (env : Env σ) (d : Doc) (acc : EntryAcc) (s : Sess σ) (sid : Nat)
         { s with iq := s.iq ++ [e2], trace := s.trace ++ [.isend e2.name] }
       else s
   else s
+
+/-- what happens for one state of the sorted entry list -/
+def enterOne (env : Env σ) (d : Doc) (acc : EntryAcc) (s : Sess σ) (sid : Nat) : Sess σ :=
+  enterFinal env d ((entryContent d acc sid).foldl (runContent env) (enterInit env d (enterAdd s sid) sid)) sid
 
 def enterStates (env : Env σ) (d : Doc) (s : Sess σ) (ts : List Nat) : Sess σ :=
   let acc := computeEntrySet d s.hv ts
@@ -509,21 +530,26 @@ def macroLoop (env : Env σ) (d : Doc) : Nat → Sess σ → Option (Sess σ)
         else macroLoop env d f (microstep env d s enabled)
     else macroLoop env d f (microstep env d s enabled)
 
+/-- `Fsm::invoke` for one `<invoke>` element: the platform is asked to start it; on success the
+    child session is registered under its invoke id -/
+def invokeOne (env : Env σ) (sid : Nat) (s : Sess σ) (inv : Invoke) : Sess σ :=
+  let o := env.invoke s.dm s.cfg sid inv
+  let s := { s with dm := o.dm, iq := s.iq ++ o.raised, trace := s.trace ++ [.invoke sid inv.docId] }
+  match o.started with
+  | some iid => { s with children := s.children.filter (·.invokeId != iid) ++ [{ invokeId := iid, state := sid, invDoc := inv.docId }] }
+  | none => s
+
+/-- the invokes of one state, in document order -/
+def invokeState (env : Env σ) (d : Doc) (s : Sess σ) (sid : Nat) : Sess σ :=
+  let invs := (getState d sid).invokes
+  (sortBy (fun i => i) (invs.map (·.docId))).foldl (fun s idoc =>
+    match invs.find? (·.docId == idoc) with
+    | none => s
+    | some inv => invokeOne env sid s inv) s
+
 /-- invoke everything in `statesToInvoke` (entry order, invokes in document order) -/
 def runInvokes (env : Env σ) (d : Doc) (s : Sess σ) : Sess σ :=
-  let s := (sortBy (docIdOf d) s.toInvoke).foldl (fun s sid =>
-    let invs := (getState d sid).invokes
-    let sorted := sortBy (fun i => i) (invs.map (·.docId))
-    sorted.foldl (fun s idoc =>
-      match invs.find? (·.docId == idoc) with
-      | none => s
-      | some inv =>
-        let o := env.invoke s.dm s.cfg sid inv
-        let s := { s with dm := o.dm, iq := s.iq ++ o.raised, trace := s.trace ++ [.invoke sid inv.docId] }
-        match o.started with
-        | some iid => { s with children := s.children.filter (·.invokeId != iid) ++ [{ invokeId := iid, state := sid, invDoc := inv.docId }] }
-        | none => s) s) s
-  { s with toInvoke := [] }
+  { (sortBy (docIdOf d) s.toInvoke).foldl (invokeState env d) s with toInvoke := [] }
 
 def cancelName : Str := [101,114,114,111,114,46,112,108,97,116,102,111,114,109,46,99,97,110,99,101,108]
 def doneInvokePrefix : Str := [100,111,110,101,46,105,110,118,111,107,101,46]
@@ -535,28 +561,49 @@ def acceptExternal (callerInvokeId : Str) (s : Sess σ) (e : Event) : Bool :=
   | some iid => if callerInvokeId != iid then s.children.any (·.invokeId == iid) else true
   | none => true
 
+/-- a child that reports `done.invoke` is forgotten -/
+def forgetDoneChild (s : Sess σ) (e : Event) : Sess σ :=
+  if doneInvokePrefix.isPrefixOf e.name then
+    match e.invokeId with
+    | some iid => { s with children := s.children.filter (·.invokeId != iid) }
+    | none => s
+  else s
+
+/-- the registered child session the event comes from, if any -/
+def childOf (s : Sess σ) (e : Event) : Option Child :=
+  e.invokeId.bind (fun iid => s.children.find? (·.invokeId == iid))
+
+/-- `<finalize>` blocks to run for the event: those of the `<invoke>` that started its sender -/
+def finalizeList (d : Doc) (s : Sess σ) (e : Event) : List Nat :=
+  match childOf s e with
+  | some c => (((getState d c.state).invokes.filter (·.docId == c.invDoc)).map (·.finalize))
+  | none => []
+
+/-- invoke ids the event is forwarded to (as coded: one entry per autoforward `<invoke>` of the
+    sender's invoking state, each naming the *sender's* invoke id) -/
+def forwardList (d : Doc) (s : Sess σ) (e : Event) : List Str :=
+  match childOf s e, e.invokeId with
+  | some c, some iid => ((getState d c.state).invokes.filter (·.autoforward)).map (fun _ => iid)
+  | _, _ => []
+
+def forwardOne (e : Event) (s : Sess σ) (iid : Str) : Sess σ :=
+  if s.children.any (·.invokeId == iid) then s.emit [.forward iid e.name] else s
+
+/-- preliminary processing of an accepted external event: trace, forget a child that reports
+    `done.invoke`, `_event`, `<finalize>` of the invocation the event comes from, autoforward -/
+def preExternal (env : Env σ) (d : Doc) (s : Sess σ) (e : Event) : Sess σ :=
+  let s := forgetDoneChild (s.emit [.ext e.name]) e
+  let fin := finalizeList d s e
+  let fwd := forwardList d s e
+  let s := { s with dm := env.setEvent s.dm e }
+  let s := fin.foldl (runContent env) s
+  fwd.foldl (forwardOne e) s
+
 /-- one accepted external event that is not the cancel event -/
 def processExternal (env : Env σ) (d : Doc) (s : Sess σ) (e : Event) : Sess σ :=
-  let s := s.emit [.ext e.name]
-  let s := if doneInvokePrefix.isPrefixOf e.name then
-      match e.invokeId with
-      | some iid => { s with children := s.children.filter (·.invokeId != iid) }
-      | none => s
-    else s
-  let child := e.invokeId.bind (fun iid => s.children.find? (·.invokeId == iid))
-  let (toFinalize, toForward) : List Nat × List Str :=
-    match child, e.invokeId with
-    | some c, some iid =>
-      let invs := (getState d c.state).invokes
-      ((invs.filter (·.docId == c.invDoc)).map (·.finalize),
-       (invs.filter (·.autoforward)).map (fun _ => iid))
-    | _, _ => ([], [])
-  let s := { s with dm := env.setEvent s.dm e }
-  let s := toFinalize.foldl (runContent env) s
-  let s := toForward.foldl (fun s iid =>
-    if s.children.any (·.invokeId == iid) then s.emit [.forward iid e.name] else s) s
-  let (s, enabled) := select env d (some e.name) s
-  if enabled.isEmpty then s else microstep env d s enabled
+  let s := preExternal env d s e
+  let r := select env d (some e.name) s
+  if r.2.isEmpty then r.1 else microstep env d r.1 r.2
 
 /-- dequeue from the session's external queue, discarding filtered events -/
 def takeExternal (callerInvokeId : Str) : Sess σ → List Event → Sess σ × Option Event
@@ -565,10 +612,25 @@ def takeExternal (callerInvokeId : Str) : Sess σ → List Event → Sess σ × 
     if acceptExternal callerInvokeId s e then ({ s with extq := rest }, some e)
     else takeExternal callerInvokeId (s.emit [.dropped e.name]) rest
 
-/-- `mainEventLoop`.  The environment is a list of batches (`feed`): whenever the interpreter
-    blocks on an empty external queue the next batch arrives (one batch = a burst that is queued
-    while the session is idle; singleton batches = one event at a time).  Events the session sends
-    to itself join the same queue in the order they are sent.
+/-- Blocking on the external queue.  The environment is a list of batches (`feed`): whenever
+    the interpreter blocks on an empty queue the next batch arrives (one batch = a burst that is
+    queued while the session is idle; singleton batches = one event at a time).  Events the session
+    sent to itself are in the same queue, in the order they were sent.  `none` = nothing will ever
+    arrive. -/
+def awaitExternal (callerInvokeId : Str) : Sess σ → List (List Event) → Sess σ × Option Event × List (List Event)
+  | s, feed =>
+    match takeExternal callerInvokeId s s.extq, feed with
+    | (s, some e), feed => (s, some e, feed)
+    | (s, none), [] => (s, none, [])
+    | (s, none), b :: rest => awaitExternal callerInvokeId ({ s with extq := b }.emit [.feed]) rest
+
+/-- what the loop does with a dequeued event: the platform cancel event stops the session,
+    anything else is processed -/
+def handleExternal (env : Env σ) (d : Doc) (s : Sess σ) (e : Event) : Sess σ :=
+  if e.name == cancelName then { s with running := false }.emit [.ext e.name]
+  else processExternal env d s e
+
+/-- `mainEventLoop`.
     Returns the session when the loop ends (`running = false`), or when it blocks with nothing
     left to arrive (`blocked = true`), or `none` on divergence (fuel exhausted). -/
 def mainLoop (env : Env σ) (d : Doc) (callerInvokeId : Str) (macroFuel : Nat) :
@@ -582,33 +644,9 @@ def mainLoop (env : Env σ) (d : Doc) (callerInvokeId : Str) (macroFuel : Nat) :
       if !s.running then some (s, false) else
       let s := runInvokes env d s
       if !s.iq.isEmpty then mainLoop env d callerInvokeId macroFuel f s feed else
-      let s := s.emit [.idle]
-      match takeExternal callerInvokeId s s.extq with
-      | (s, none) =>
-        match feed with
-        | [] => some (s, true)
-        | b :: rest =>
-          -- nothing was processed: the interpreter is still blocked in the same `recv`
-          mainLoopFed env d callerInvokeId macroFuel f ({ s with extq := b }.emit [.feed]) rest
-      | (s, some e) =>
-        if e.name == cancelName then
-          mainLoop env d callerInvokeId macroFuel f ({ s with running := false }.emit [.ext e.name]) feed
-        else mainLoop env d callerInvokeId macroFuel f (processExternal env d s e) feed
-where
-  /-- continuation after a batch arrived while blocked (no new `idle` observation) -/
-  mainLoopFed (env : Env σ) (d : Doc) (callerInvokeId : Str) (macroFuel : Nat) :
-      Nat → Sess σ → List (List Event) → Option (Sess σ × Bool)
-    | 0, _, _ => none
-    | f + 1, s, feed =>
-      match takeExternal callerInvokeId s s.extq with
-      | (s, none) =>
-        match feed with
-        | [] => some (s, true)
-        | b :: rest => mainLoopFed env d callerInvokeId macroFuel f ({ s with extq := b }.emit [.feed]) rest
-      | (s, some e) =>
-        if e.name == cancelName then
-          mainLoop env d callerInvokeId macroFuel f ({ s with running := false }.emit [.ext e.name]) feed
-        else mainLoop env d callerInvokeId macroFuel f (processExternal env d s e) feed
+      match awaitExternal callerInvokeId (s.emit [.idle]) feed with
+      | (s, none, _) => some (s, true)
+      | (s, some e, feed') => mainLoop env d callerInvokeId macroFuel f (handleExternal env d s e) feed'
 
 /-- `exitInterpreter` (+ `returnDoneEvent` when a top-level final state is left) -/
 def exitInterpreter (env : Env σ) (d : Doc) (hasParent : Bool) (s : Sess σ) : Sess σ :=
@@ -624,17 +662,23 @@ def allStatesPreorder (d : Doc) : Nat → Nat → List Nat
   | 0, _ => []
   | f + 1, s => s :: (getState d s).kids.flatMap (allStatesPreorder d f)
 
+/-- data initialisation (all states, pre-order) and the global script -/
+def initSession (env : Env σ) (d : Doc) (dm0 : σ) : Sess σ :=
+  let s : Sess σ := { dm := dm0 }
+  let s := (allStatesPreorder d (fuelOf d) d.root).foldl (fun s sid =>
+    s.absorb (env.initData s.dm sid (!d.late))) s
+  if d.script != 0 then s.absorb (env.exec s.dm s.cfg d.script) else s
+
+/-- the session after start-up: `enterStates([doc.initial.transition])` -/
+def startSession (env : Env σ) (d : Doc) (dm0 : σ) : Sess σ :=
+  let it := (getState d d.root).initial
+  enterStates env d (initSession env d dm0) (if it != 0 then [it] else [])
+
 /-- `interpret` after `valid()`: data initialisation, global script, initial configuration,
     main loop, exit. -/
 def interpret (env : Env σ) (d : Doc) (callerInvokeId : Option Str) (hasParent : Bool) (dm0 : σ)
     (feed : List (List Event)) (macroFuel loopFuel : Nat) : Option (Sess σ × Bool) :=
-  let s : Sess σ := { dm := dm0 }
-  let s := (allStatesPreorder d (fuelOf d) d.root).foldl (fun s sid =>
-    s.absorb (env.initData s.dm sid (!d.late))) s
-  let s := if d.script != 0 then s.absorb (env.exec s.dm s.cfg d.script) else s
-  let it := (getState d d.root).initial
-  let s := enterStates env d s (if it != 0 then [it] else [])
-  match mainLoop env d (callerInvokeId.getD []) macroFuel loopFuel s feed with
+  match mainLoop env d (callerInvokeId.getD []) macroFuel loopFuel (startSession env d dm0) feed with
   | none => none
   | some (s, true) => some (s, true)
   | some (s, false) => some (exitInterpreter env d hasParent s, false)
